@@ -1,10 +1,21 @@
 #!/usr/bin/env python3
-"""Subprocess worker for C18: reads JSON {"lines": [...], "order": [...], "noise": [...]} on stdin, evaluates the
-constructions with the real library in the given order (with unrelated 'noise' renderings interleaved) and prints
-{"index": sha1(answer)} as JSON.  PYTHONHASHSEED is set by the parent."""
+"""Subprocess worker for C18: reads JSON {"lines": [...], "order": [...], "noise": [...], "want": {index: digest}} on
+stdin, evaluates the constructions with the real library in the given order (with unrelated 'noise' renderings
+interleaved) and reports one JSON object per line of output: {"i": index, "d": sha1(answer)[, "a": answer]} after every
+construction ("a" = the full answer when the digest is not the wanted one, so that a report can show what this very
+process produced — a random hash seed cannot be re-created), and {"done": true, …} at the end.  PYTHONHASHSEED is set by
+the parent.
+
+Whatever the library under test does must not break the protocol (a check that cannot read its worker is blind):
+  * the report goes to a private duplicate of stdout; file descriptor 1 and sys.stdout point to /dev/null while the
+    library runs (a display hook that prints, a stray print()), stderr likewise is not parsed by the parent;
+  * every construction runs under a CPU-time alarm: a loop becomes the answer `err crashed-or-hung` (the same answer
+    the in-process evaluation gives) and the rest of the battery still runs;
+  * results are flushed one by one, so if the interpreter dies the parent knows on which construction and resumes after it."""
 import hashlib
 import json
 import os
+import signal
 import sys
 
 HERE = os.path.dirname(os.path.abspath(__file__))
@@ -12,19 +23,63 @@ sys.path.insert(0, HERE)
 REPO = os.environ.get("VERIF_REPO", "/repo")
 sys.path.insert(0, REPO)
 
-import ops  # noqa: E402
+MAX_ANSWERS = 40
+LINE_CPU_SECONDS = 20.0
+
+
+class _TO(BaseException):
+    pass
+
+
+def _alarm(signum, frame):
+    raise _TO()
 
 
 def main():
+    report = os.fdopen(os.dup(1), "w", encoding="utf-8")
+    devnull = os.open(os.devnull, os.O_WRONLY)
+    os.dup2(devnull, 1)
+    sys.stdout = open(os.devnull, "w")
     job = json.load(sys.stdin)
-    lines, order, noise = job["lines"], job["order"], job.get("noise", [])
-    out = {}
+    try:
+        import ops
+    except BaseException as e:  # noqa: BLE001  (the library cannot even be imported in this process)
+        report.write(json.dumps({"import_failed": f"{type(e).__name__}: {e}"[:500]}) + "\n")
+        report.flush()
+        return
+    lines, order, noise, want = job["lines"], job["order"], job.get("noise", []), job.get("want", {})
+    signal.signal(signal.SIGVTALRM, _alarm)
+    n_answers = 0
+    timeouts = 0
     for k, idx in enumerate(order):
-        if noise:
-            ops.run_line(noise[k % len(noise)])
-        ans = ops.run_line(lines[idx])
-        out[str(idx)] = hashlib.sha1(ans.encode()).hexdigest()
-    json.dump({"digests": out, "hashseed": os.environ.get("PYTHONHASHSEED"), "hash_of_a": hash("a")}, sys.stdout)
+        ans = None
+        try:
+            signal.setitimer(signal.ITIMER_VIRTUAL, LINE_CPU_SECONDS if timeouts < 3 else 2.0)
+            if noise:
+                ops.run_line(noise[k % len(noise)])
+            ans = ops.run_line(lines[idx])
+        except _TO:
+            timeouts += 1
+            ans = "err crashed-or-hung"
+        except RecursionError:
+            ans = "err crashed-or-hung"
+        except BaseException as e:  # noqa: BLE001  (an exception in one process only is a difference, not a harness failure)
+            if isinstance(e, (KeyboardInterrupt, SystemExit)):
+                raise
+            ans = f"err worker-exception {type(e).__name__}"
+        finally:
+            signal.setitimer(signal.ITIMER_VIRTUAL, 0)
+        if not isinstance(ans, str):
+            ans = "err non-string-answer"
+        dg = hashlib.sha1(ans.encode("utf-8", "surrogatepass")).hexdigest()
+        row = {"i": idx, "d": dg}
+        if want and want.get(str(idx)) != dg and n_answers < MAX_ANSWERS:
+            row["a"] = ans
+            n_answers += 1
+        report.write(json.dumps(row) + "\n")
+        report.flush()
+    report.write(json.dumps({"done": True, "hashseed": os.environ.get("PYTHONHASHSEED"), "hash_of_a": hash("a")}) + "\n")
+    report.flush()
 
 
 if __name__ == "__main__":
